@@ -62,7 +62,8 @@ RULE = ("case kind by index mod 8: 0-3 a random mixed circuit on <= 4 wires "
         "Measure variants, Discard, Copy, stochastic classical gates, swaps); "
         "6 a pure quantum circuit; 7 single Measure/Encode/Discard/MixedState "
         "variants and Born-rule set-ups on a random state.  Non-trivial = at "
-        "least 3 boxes; distinct by the repr of the circuit(s).")
+        "least 3 boxes; distinct by the repr of the circuit(s)."
+        "  Also: wire-less classical gates; the batch form pure.eval(circuit).")
 SIZES = {"quick": (16, 48), "thorough": (64, 224)}
 TIMEOUT = {"quick": 600, "thorough": 5400}
 COVER = {
